@@ -286,8 +286,8 @@ pub fn mutators(c: &Case) -> Vec<Mutator<Case>> {
         }
         if app("collateral-annotation") && c.tx.total_collateral.is_none() {
             v.push(Mutator::new("total_collateral=balance+1", "collateral-annotation", &["totcoll"], &["body.17"], |c: &mut Case| {
-                let bal: u64 = c.tx.collateral.clone().unwrap_or_default().iter().filter_map(|r| c.env.get(r)).map(|u| u.out.fixed()).sum();
-                c.tx.total_collateral = Some(TotalCollateral::Exact(bal + 1))
+                let bal: u64 = c.tx.collateral.clone().unwrap_or_default().iter().filter_map(|r| c.env.get(r)).map(|u| u.out.fixed()).fold(0u64, |a, b| a.saturating_add(b));
+                c.tx.total_collateral = Some(TotalCollateral::Exact(if bal == u64::MAX { bal - 1 } else { bal + 1 }))
             }));
             v.push(Mutator::new("total_collateral=1", "collateral-annotation", &["totcoll"], &["body.17"], |c: &mut Case| c.tx.total_collateral = Some(TotalCollateral::Exact(1))));
         }
